@@ -9,14 +9,14 @@ PROVED = ['the generated Newton loop returns either a speed meeting the stopping
           'reached when the step budget ran out (induction over the budget, all reals)',
           'a strictly increasing fixed-bed excess gradient has at most one crossing with musf']
 HYPOTHESES = ['fixed-bed excess gradient strictly increasing in line speed (sampled on the real code every run)']
-MONITORED = ['positivity of the result; 1 % accuracy after a 20-step fall-through (E with Cvs <= 0.40)']
-RULE = ('E with Cvs <= 0.40 incl. 0.1 m pipes with light solids, dilute (Cvs 0.02-0.05) and light (Rsd < 1.2) slurries; history probes repeating the query with only '
+MONITORED = ['positivity of the result; 1 % accuracy after a 20-step fall-through on E (Cvs 0.02-0.45); for denser beds (Cvs > 0.45) the 20 Newton steps can end up to 30 % off the crossing: listed finding']
+RULE = ('E (Cvs 0.02-0.45) incl. 0.1 m pipes with light solids, dilute (Cvs 0.02-0.05) and light (Rsd < 1.2) slurries; history probes repeating the query with only '
         'rhol / nu changed; non-trivial = distinct (early return | fall-through, Rsd*Cvs < 0.1 or not) classes')
 ASSUMPTIONS = ['generated vls_FBSB and fb_Erhg equal the implementation bit-for-bit (correspondence incl. step budgets 0..20)']
 
 
 def pt(rng):
-    vls, Dp, d, eps, nu, rhol, rhos, Cvs = E.point(rng, cv_hi=0.40)
+    vls, Dp, d, eps, nu, rhol, rhos, Cvs = E.point(rng, cv_hi=0.45)
     r = rng.random()
     if r < 0.2:
         Cvs = rng.uniform(0.02, 0.05)
@@ -54,7 +54,7 @@ def check_point(ctx, St, a, classes, hist=None):
         fb = St.fb_Erhg(v, *a)
         res = abs(fb - St.musf) / St.musf
         if not res < 0.01:
-            ctx.violation(f'fixed-bed Erhg at the returned speed {v!r} is {fb!r}: {res:.2%} off musf', inp, key='crossing')
+            ctx.violation(f'fixed-bed Erhg at the returned speed {v!r} is {fb!r}: {res:.2%} off musf', inp, key='crossing-missed-dense-bed' if Cvs > 0.45 else 'crossing')
         classes.add((res < 1e-3, (rhos - rhol) / rhol * Cvs < 0.1))
         # monotonicity around and away from the crossing
         for f1, f2 in ((1.0, 1 + 1e-6), (1.0, 1.001), (0.5, 0.55), (1.0, 1.3), (ctx.rng.uniform(0.2, 3), None)):
@@ -80,4 +80,21 @@ def monitor(ctx, extended=False):
             check_point(ctx, St, b, classes, hist=[list(a)])
             c = (Dp, d, eps, ctx.rng.choice([0.8e-6, 1.1e-6, 1.4e-6]), b[4], rhos, Cvs)
             check_point(ctx, St, c, classes, hist=[list(a), list(b)])
+    # beds that nearly fill the pipe (outside E): the stated clauses are evaluated there too; a missed crossing there is the listed finding
+    for _ in range(ctx.n(150, 8000)):
+        Dp, d, eps, nu, rhol, rhos, _ = pt(ctx.rng)
+        check_point(ctx, St, (Dp, d, eps, nu, rhol, rhos, ctx.rng.uniform(0.4501, 0.59)), set())
     ctx.stats['distinct_nontrivial'] = len(classes)
+
+
+KNOWN_WITNESS = [0.13108338980956233, 0.012128194587209764, 4.5e-05, 1.0068122620717291e-06, 0.9982, 2.65, 0.5195790771747857]
+
+
+def replay_known(kf):
+    """witness of the listed finding `crossing-missed-dense-bed`: True if it still reproduces"""
+    if kf['key'] != 'crossing-missed-dense-bed':
+        return False
+    from DHLLDV import stratified as St
+    a = kf.get('witness', {}).get('args') or KNOWN_WITNESS
+    v = St.vls_FBSB(*a)
+    return not abs(St.fb_Erhg(v, *a) - St.musf) / St.musf < 0.01
